@@ -1,6 +1,6 @@
 (* C16: the lemmas in the exact shape of the property theorems. *)
 From V Require Import Common.Base C16.Checked C16.Spec C16.Wtf8 C16.Wtf8Proofs C16.Vlq16 C16.Vlq16Proofs
-  C16.CssNum C16.CssNumProofs C16.Pieces C16.PiecesProofs C16.Packet C16.PacketProofs C16.CssIdent C16.CssIdentProofs C16.JsxEntities C16.JsxEntitiesProofs C16.CssLex C16.CssLexProofs C16.Globstar C16.GlobstarProofs C16.JsLex C16.JsLexProofs.
+  C16.CssNum C16.CssNumProofs C16.Pieces C16.PiecesProofs C16.Packet C16.PacketProofs C16.CssIdent C16.CssIdentProofs C16.JsxEntities C16.JsxEntitiesProofs C16.CssLex C16.CssLexProofs C16.Globstar C16.GlobstarProofs C16.JsLex C16.JsLexProofs C16.JsIdent C16.JsIdentProofs C16.JsPragma C16.JsPragmaProofs.
 
 Lemma all_bytes_bytes_ok s : all_bytes s <-> bytes_ok s.
 Proof. reflexivity. Qed.
@@ -95,3 +95,14 @@ Proof. intros t Hb. apply safe_not_crash_hang. apply run_jsstring_total. exact H
 
 Lemma total_js_ScanRegExp : forall idc, idc eof = false -> total_on all_bytes (run_regexp idc).
 Proof. intros idc He t Hb. apply safe_not_crash_hang. apply run_regexp_total; assumption. Qed.
+
+Lemma total_js_RangeOfIdentifier : forall ids idc, total_on all_bytes (jsRangeOfIdentifier ids idc).
+Proof. intros ids idc t Hb. apply safe_not_crash_hang. apply jsRangeOfIdentifier_total. exact Hb. Qed.
+
+Lemma total_RangeOfString : total_on (fun _ => True) RangeOfString.
+Proof. intros t _. apply safe_not_crash_hang. apply RangeOfString_total. Qed.
+
+Lemma total_scanForPragmaArg : forall ws skip start plen text,
+  all_bytes text -> 0 <= plen <= len text ->
+  scanForPragmaArg ws skip start plen text <> Crash /\ scanForPragmaArg ws skip start plen text <> Hang.
+Proof. intros. apply safe_not_crash_hang. apply scanForPragmaArg_total; assumption. Qed.
